@@ -95,10 +95,15 @@ Section Differ.
     diff_loop (diff_fuel a b) all_mod (cursor_at_start a) (cursor_at_start b)
               (cursor_past_end a) (cursor_past_end b).
 
+  (* A value of the model stands for the *bytes* of a value tuple (the differ compares
+     bytes); `dec` maps them to the row they decode to. Two encodings of one row exist
+     in real data: the canonical tuple and the one that keeps trailing NULL fields. *)
+  Variable dec : val -> N.
+
   (* makeDiffCallBack with equal value descriptors: a Modified diff whose values
-     compare equal is dropped *)
+     compare equal under valDesc.Compare (= decode to the same row) is dropped *)
   Definition canonical_filter (l : list change) : list change :=
-    filter (fun c => match c with Modified _ v v' => negb (v =? v') | _ => true end) l.
+    filter (fun c => match c with Modified _ v v' => negb (dec v =? dec v') | _ => true end) l.
 
   (* DiffMaps *)
   Definition diff_maps (all_mod : bool) (a b : node) : option (list change) :=
